@@ -73,7 +73,38 @@ func (c14) Run(c *fw.Case) {
 	r := c.R
 	var s *jsonschema.Schema
 	var docText string
-	if c.Idx%4 == 3 {
+	var dynInsts []any
+	if c.Idx%5 == 4 {
+		// a forked dynamic-scope topology: sibling properties reach one $dynamicRef under different dynamic scopes,
+		// so an order-dependent (map iteration) evaluation would change verdicts between repetitions
+		var u *gen.DynUniverse
+		for k := 0; k < 20; k++ {
+			u = gen.NewDynUniverse(r)
+			if len(u.Docs) == 0 && len(u.Routes) == 2 {
+				break
+			}
+		}
+		if len(u.Docs) > 0 {
+			return
+		}
+		docText = u.Root
+		var err error
+		var ok bool
+		s, err, ok = unmarshalSchema(c, []byte(docText))
+		if !ok || err != nil {
+			return
+		}
+		s.ID = u.BaseURI // the topology was written for this base
+		for _, m1 := range u.Markers {
+			for _, m2 := range u.Markers {
+				dynInsts = append(dynInsts, u.Wrap(m1, m2))
+			}
+		}
+		r.Shuffle(len(dynInsts), func(i, j int) { dynInsts[i], dynInsts[j] = dynInsts[j], dynInsts[i] })
+		if len(dynInsts) > 8 {
+			dynInsts = dynInsts[:8]
+		}
+	} else if c.Idx%4 == 3 {
 		s = gen.SchemaStruct(r, &gen.StructOpts{Valid: true, MaxDepth: 3, NoRefs: true, PropOrder: true})
 		data, err, ok := marshalSchema(c, s, "generated Schema value")
 		if !ok || err != nil {
@@ -133,6 +164,9 @@ func (c14) Run(c *fw.Case) {
 		}
 	}
 	insts := gen.Instances(r, doc, 6, false, gen.Names[:5]...)
+	if dynInsts != nil {
+		insts = dynInsts
+	}
 	pattern := ""
 	for i, im := range insts {
 		var inst any
